@@ -65,6 +65,12 @@ theorem recv_tspan (r : Rng) (b : Ty) (v : Val) (h : asgRecv cfg sfh (.tspan r) 
   unfold inst at hi ⊢; cases v <;> simp at hi ⊢
   exact Rng.sub_contains h hi
 
+theorem recv_tstamp (r : Rng) (b : Ty) (v : Val) (h : asgRecv cfg sfh (.tstamp r) b = true) (hi : inst cfg sfh b v = true) :
+    inst cfg sfh (.tstamp r) v = true := by
+  unfold asgRecv at h; cases b <;> simp at h
+  unfold inst at hi ⊢; cases v <;> simp at hi ⊢
+  exact Rng.sub_contains h hi
+
 theorem recv_float (lo hi' : Fl) (b : Ty) (v : Val) (h : asgRecv cfg sfh (.float lo hi') b = true) (hi : inst cfg sfh b v = true) :
     inst cfg sfh (.float lo hi') v = true := by
   unfold asgRecv at h; cases b <;> simp at h
@@ -341,10 +347,10 @@ theorem recv_scalar (n : Nat) (ih : Sound cfg sfh n) (b : Ty) (v : Val)
   unfold asgRecv at h
   simp only [Ty.w] at hw
   have key : (asg cfg sfh .str b || asg cfg sfh .numeric b || asg cfg sfh (.bool none) b || asg cfg sfh (.regexp "") b ||
-      asg cfg sfh (.tspan Rng.all) b) = true → inst cfg sfh .scalar v = true := by
+      asg cfg sfh (.tspan Rng.all) b || asg cfg sfh (.tstamp tstampAll) b) = true → inst cfg sfh .scalar v = true := by
     intro h
     simp only [Bool.or_eq_true] at h
-    rcases h with (((h | h) | h) | h) | h
+    rcases h with ((((h | h) | h) | h) | h) | h
     · have := ih .str b v (by simp [Ty.w]; omega) (leaf_hyp cfg sfh H _ (by unfold Ty.Frag; trivial) (by unfold Ty.WF; trivial)) h hi
       unfold inst at this ⊢; cases v <;> simp [isScalarVal] at this ⊢
     · have := ih .numeric b v (by simp [Ty.w]; omega) (leaf_hyp cfg sfh H _ (by unfold Ty.Frag; trivial) (by unfold Ty.WF; trivial)) h hi
@@ -354,6 +360,8 @@ theorem recv_scalar (n : Nat) (ih : Sound cfg sfh n) (b : Ty) (v : Val)
     · have := ih (.regexp "") b v (by simp [Ty.w]; omega) (leaf_hyp cfg sfh H _ (by unfold Ty.Frag; trivial) (by unfold Ty.WF; trivial)) h hi
       unfold inst at this ⊢; cases v <;> simp [isScalarVal] at this ⊢
     · have := ih (.tspan Rng.all) b v (by simp [Ty.w]; omega) (leaf_hyp cfg sfh H _ (by unfold Ty.Frag; trivial) (by unfold Ty.WF; trivial)) h hi
+      unfold inst at this ⊢; cases v <;> simp [isScalarVal] at this ⊢
+    · have := ih (.tstamp tstampAll) b v (by simp [Ty.w]; omega) (leaf_hyp cfg sfh H _ (by unfold Ty.Frag; trivial) (by unfold Ty.WF; trivial)) h hi
       unfold inst at this ⊢; cases v <;> simp [isScalarVal] at this ⊢
   cases b with
   | scalar => exact hi
